@@ -444,3 +444,7 @@ TWINS = [
     Twin("massaction-length-rewritten", [(RATES, '    def args_dimensionality(self, reaction):\n        order = reaction.order()\n        return ({"time": -1, "amount": 1 - order, "length": 3 * (order - 1)},)', '    def args_dimensionality(self, reaction):\n        order = reaction.order()\n        return ({"time": -1, "amount": 1 - order, "length": 3 * order - 3},)')]),
     Twin("eyringhs-call-rearranged", [(RATES, "            * backend.exp(_pure_number(-(dH - T * dS) / (R * T)))", "            * backend.exp(_pure_number((T * dS - dH) / (T * R)))")]),
 ]
+
+# shared rule A4 (no new state kept across calls)
+MUTANTS.append(Mutant("registry-unit-cached-by-dimensionality", [("chempy/units.py", "def _get_unit_from_registry(dimensionality, registry):\n    return reduce(mul, [registry[k] ** v for k, v in dimensionality.items()])",
+    "_unit_cache = {}\n\n\ndef _get_unit_from_registry(dimensionality, registry):\n    key = tuple(sorted(dimensionality.items()))\n    if key not in _unit_cache:\n        _unit_cache[key] = reduce(mul, [registry[k] ** v for k, v in dimensionality.items()])\n    return _unit_cache[key]")], "C10-A4", "new-state"))
